@@ -414,6 +414,11 @@ func corsJob(raw json.RawMessage) (any, error) {
 	for _, q := range corsRequests(it.Prop == "C05", c) {
 		o := hv.Serve(r, q.req())
 		out.Evals++
+		if it.Prop == "C05" && o.Status == 500 && !(q.Path == "/boom" && (q.Method == "GET" || q.Method == "HEAD")) {
+			// the router is built with WithStatusRecovery(500) and only GET /boom has a handler that panics: any other 500
+			// is a fault in the router's own code that the recovery option has hidden
+			rep(it.Prop+".no-panic", "panic:cors:contained-by-recovery", q, "status 500 (the recovery option answered)", "no fault: only GET /boom panics")
+		}
 		if o.Paniced {
 			rep(it.Prop+".no-panic", "panic:cors:"+shortPanic(o.Panic), q, fmt.Sprintf("panic: %v", o.Panic), "no panic")
 			continue
